@@ -272,15 +272,19 @@ class EditStream(HTMLHandlerBase):
         options.audioCodec = 'any'
         options.textCodec = None
         options.drmSelection = []
-        mc = ManifestContext(
-            options=options, stream=current_stream, multi_period=None,
-            manifest=default_manifest)
-        clear_adaptation_sets = mc.periods[0].adaptationSets if mc.periods else []
-        drmSelection = DrmSelection.from_string(','.join(DrmSystem.values()))
-        enc_options = options.clone(drmSelection=drmSelection)
-        mc = ManifestContext(
-            options=enc_options, stream=current_stream, multi_period=None,
-            manifest=default_manifest)
+        try:
+            mc = ManifestContext(
+                options=options, stream=current_stream, multi_period=None,
+                manifest=default_manifest)
+            clear_adaptation_sets = mc.periods[0].adaptationSets if mc.periods else []
+            drmSelection = DrmSelection.from_string(','.join(DrmSystem.values()))
+            enc_options = options.clone(drmSelection=drmSelection)
+            mc = ManifestContext(
+                options=enc_options, stream=current_stream, multi_period=None,
+                manifest=default_manifest)
+        except (ValueError, OverflowError) as err:
+            logging.info('Invalid CGI parameters: %s', err)
+            return flask.make_response('Invalid CGI parameters', 400)
         enc_adaptation_sets = mc.periods[0].adaptationSets if mc.periods else []
         if 'fragment' in flask.request.args:
             layout = 'fragment.html'
